@@ -55,6 +55,7 @@ func genSet(r *vlib.Rand, small bool) []cand {
 		n = r.Range(9, 16)
 	}
 	univIA := r.Range(1, 5)
+	univISD := r.Range(1, 3)
 	univIf := r.Range(1, 3)
 	maxLen := r.Range(1, 6)
 	mk := func() []lnk {
@@ -64,7 +65,8 @@ func genSet(r *vlib.Rand, small bool) []cand {
 		}
 		out := make([]lnk, l)
 		for i := range out {
-			out[i] = lnk{ia: uint64(1)<<48 | uint64(0xff00_0000_0100+r.Intn(univIA)), eg: uint16(1 + r.Intn(univIf))}
+			// the same AS numbers occur in several ISDs: links that differ only in the ISD are different links
+			out[i] = lnk{ia: uint64(1+r.Intn(univISD))<<48 | uint64(0xff00_0000_0100+r.Intn(univIA)), eg: uint16(1 + r.Intn(univIf))}
 		}
 		return out
 	}
@@ -76,6 +78,17 @@ func genSet(r *vlib.Rand, small bool) []cand {
 		}
 		if i > 0 && r.Chance(15) { // extension of the first one (diversity 0, longer)
 			cs[i].links = append(append([]lnk(nil), cs[0].links...), mk()...)
+		}
+		if i > 0 && r.Chance(12) { // the first candidate's links moved to another ISD (same AS numbers, same interfaces)
+			cs[i].links = append([]lnk(nil), cs[0].links...)
+			for j := range cs[i].links {
+				if j == 0 || r.Chance(60) {
+					cs[i].links[j].ia = cs[i].links[j].ia&(1<<48-1) | uint64(4+r.Intn(2))<<48
+				}
+			}
+			if r.Chance(50) {
+				cs[i].links = append(cs[i].links, mk()...)
+			}
 		}
 		if i > 0 && r.Chance(10) { // totally disjoint
 			for j := range cs[i].links {
@@ -178,7 +191,7 @@ func spec(cs []cand, k int, res []int) string {
 
 func main() {
 	e := vlib.Init()
-	e.Rule = "random candidate lists (n 0..16, links over a universe of 1-5 ASes x 1-3 egress ifs, lengths 0..12, " +
+	e.Rule = "random candidate lists (n 0..16, links over a universe of 1-3 ISDs x 1-5 AS numbers (the same AS numbers in every ISD) x 1-3 egress ifs, copies of the first candidate moved to another ISD, lengths 0..12, " +
 		"duplicates, extensions of the first, disjoint ones; 80% ordered by length) x every k in 1..n+2 (k in {-1,0} only counted); " +
 		"non-trivial = 2 <= k < n (selection branch); distinct by op text; spec predicate on every case with k >= 1"
 	algo := beacon.DefaultSelectionAlgorithm()
